@@ -876,6 +876,7 @@ class ClientSession:
                             headers.popall(hdrs.AUTHORIZATION, None)
                             headers.popall(hdrs.COOKIE, None)
                             headers.popall(hdrs.PROXY_AUTHORIZATION, None)
+                            headers.popall(hdrs.HOST, None)
 
                         url = parsed_redirect_url
                         params = {}
